@@ -223,6 +223,7 @@ class InfosetFilter(object):
             while "--" in data:
                 warnings.warn("Comments cannot contain adjacent dashes", DataLossWarning)
                 data = data.replace("--", "- -")
+        if self.preventDoubleDashComments or self.preventDashAtCommentEnd:
             if data.endswith("-"):
                 warnings.warn("Comments cannot end in a dash", DataLossWarning)
                 data += " "
